@@ -1,12 +1,25 @@
 """C04 (g): the metadata readers report each documented document property unchanged.
 
-Dataflow postcondition per (reader, property): every store into the metadata field of the property has, after resolving
-local single assignments / walrus bindings / literal-list loops / one level of helper functions, the provenance
-`text of the node <TAG of the property>` (spec table below, written from the file-format specifications, not from the
-code), wrapped at most by the transformations the format itself defines (none for OOXML / ODF: exact copy;
-surrounding white space is not significant in OPF `dc:*` elements and in the HTML <title>, so `strip()` is allowed there);
-at least one such store exists; and the store is guarded only by tests about that same node / text (so a present,
-non-empty property is always copied).  Back end `dataflow`; unrecognised shapes are `unknown`.
+Decided by a small flow-sensitive ABSTRACT INTERPRETER over the real AST of the reader's module (back end `dataflow`):
+values are provenance terms (`text of find(<root>, <tag>)`, `content attribute of <attrs>`, constants, constant
+tuples / dicts, alternatives at joins).  It follows the data flow, not the shape of the code:
+
+  * assignments, walrus bindings, tuple unpacking, conditional expressions, `x or ""`;
+  * `if` with statically decidable tests (constants from tables: `convert is not None`) takes one branch, otherwise both
+    branches are executed under a recorded guard and joined; early `return` / `continue` end a path;
+  * `for` over a constant sequence (literal or hoisted module constant, tuple targets) is unrolled, over anything else the
+    body is executed once for an arbitrary element;
+  * calls of module-level helpers, nested functions and methods of the same class are executed in place (bounded depth)
+    with their parameters bound; their returns are joined;
+  * stores: `obj.f = v`, `setattr(obj, name, v)` with the name evaluated (constant, loop variable over a table, lookup in a
+    constant dict -> one guarded store per entry), constructor keywords `XMetadata(f=v)`.
+
+Every function of the module is analysed as an entry point; a store whose field / value depends on parameters that only a
+caller knows is judged in the caller's context.  Per (reader, property) the obligation holds when at least one store into the
+property's field exists, every such store has the provenance `text of the node <TAG of the property>` (spec table below,
+from the file-format specifications) wrapped at most by the transformations the format defines, and is guarded only by tests
+about that node / text.  Anything the interpreter does not understand gives `unknown` -- never a refutation: a violation is
+reported only when replay/c04_meta.py reproduces a changed property on a crafted document.
 """
 from __future__ import annotations
 
@@ -15,209 +28,50 @@ import ast
 from pyvc import loader
 from pyvc.flow import dotted, ground_obligation
 
-from contracts.c04_flow import EX, Index, own_walk, single_defs, short
+from contracts.c04_flow import EX, short
 
 DC = "{http://purl.org/dc/elements/1.1/}"
 CP = "{http://schemas.openxmlformats.org/package/2006/metadata/core-properties}"
 
-# reader -> (file, function qualname, kind, {property: (metadata field, node tag / key, allowed wrappers)})
+# reader -> (file, metadata class, kind, {property: (metadata field, node tag / key, allowed wrappers)})
 OOXML = {"title": ("title", DC + "title", ()), "creator": ("author", DC + "creator", ()), "subject": ("subject", DC + "subject", ()),
          "keywords": ("keywords", CP + "keywords", ()), "description": ("comments", DC + "description", ())}
 READERS = {
-    "docx": (EX + "ms_modern/docx_extractor.py", "_extract_metadata_from_context", "etree", OOXML),
-    "pptx": (EX + "ms_modern/pptx_extractor.py", "_extract_metadata_from_context", "etree", OOXML),
-    "odf": (EX + "open_office/_shared.py", "extract_odf_metadata", "etree",
+    "docx": (EX + "ms_modern/docx_extractor.py", "DocxMetadata", "etree", OOXML),
+    "pptx": (EX + "ms_modern/pptx_extractor.py", "PptxMetadata", "etree", OOXML),
+    "odf": (EX + "open_office/_shared.py", "OpenDocumentMetadata", "etree",
             {"title": ("title", "dc:title", ()), "creator": ("creator", "dc:creator", ()), "subject": ("subject", "dc:subject", ()),
              "keywords": ("keywords", "meta:keyword", ()), "description": ("description", "dc:description", ())}),
-    "epub": (EX + "epub_extractor.py", "_EpubContext._parse_metadata", "etree",
-             {"title": ("title", "dc:title", ("strip", "or-empty")), "creator": ("creator", "dc:creator", ("strip", "or-empty")),
-              "subject": ("subject", "dc:subject", ("strip", "or-empty")), "description": ("description", "dc:description", ("strip", "or-empty"))}),
-    "xlsx": (EX + "ms_modern/xlsx_extractor.py", "_extract_metadata_from_workbook", "props",
-             {"title": ("title", "title", ("or-empty",)), "creator": ("creator", "creator", ("or-empty",)),
-              "keywords": ("keywords", "keywords", ("or-empty",)), "description": ("description", "description", ("or-empty",))}),
-    "html": (EX + "html_extractor.py", "_HtmlTextExtractor._extract_metadata", "html",
+    "epub": (EX + "epub_extractor.py", "EpubMetadata", "etree",
+             {"title": ("title", "dc:title", ("strip",)), "creator": ("creator", "dc:creator", ("strip",)),
+              "subject": ("subject", "dc:subject", ("strip",)), "description": ("description", "dc:description", ("strip",))}),
+    "xlsx": (EX + "ms_modern/xlsx_extractor.py", "XlsxMetadata", "props",
+             {"title": ("title", "title", ()), "creator": ("creator", "creator", ()),
+              "keywords": ("keywords", "keywords", ()), "description": ("description", "description", ())}),
+    "html": (EX + "html_extractor.py", "HtmlMetadata", "html",
              {"title": ("title", "node:title", ("strip",)), "creator": ("author", "meta:author", ()),
               "keywords": ("keywords", "meta:keywords", ()), "description": ("description", "meta:description", ())}),
-    "rtf": (EX + "ms_legacy/rtf_extractor.py", "_RtfParser._extract_metadata", "rtf",
+    "rtf": (EX + "ms_legacy/rtf_extractor.py", "RtfMetadata", "rtf",
             {"title": ("title", "\\title", ()), "creator": ("author", "\\author", ()), "subject": ("subject", "\\subject", ()),
              "keywords": ("keywords", "\\keywords", ()), "description": ("comments", "\\comment", ())}),
 }
+# wrappers that only map an absent / empty text to the field's "nothing stored" value
+NEUTRAL = ("or-empty", "or-none", "str")
+MAX_DEPTH = 4
+MAX_UNROLL = 80
 
 
-class Prov:
-    """Provenance of expressions inside one function (with an environment for unrolled loop variables / helper parameters)."""
-
-    def __init__(self, mod, fnode, env=None, depth=0):
-        self.mod, self.fnode, self.env, self.depth = mod, fnode, dict(env or {}), depth
-
-    def const_str(self, e):
-        if isinstance(e, ast.Constant) and isinstance(e.value, str):
-            return e.value
-        if isinstance(e, ast.Name):
-            if e.id in self.env and isinstance(self.env[e.id], tuple) and self.env[e.id][0] == "const":
-                return self.env[e.id][1]
-            if e.id in self.mod.assigns:
-                return Prov(self.mod, None).const_str(self.mod.assigns[e.id])
-            return None
-        if isinstance(e, ast.JoinedStr):
-            parts = []
-            for v in e.values:
-                if isinstance(v, ast.Constant):
-                    parts.append(str(v.value))
-                elif isinstance(v, ast.FormattedValue) and v.format_spec is None and v.conversion == -1:
-                    s = self.const_str(v.value)
-                    if s is None:
-                        return None
-                    parts.append(s)
-                else:
-                    return None
-            return "".join(parts)
-        if isinstance(e, ast.BinOp) and isinstance(e.op, ast.Add):
-            a, b = self.const_str(e.left), self.const_str(e.right)
-            return None if a is None or b is None else a + b
-        return None
-
-    def ev(self, e, d=0):
-        """Canonical provenance term (nested tuples)."""
-        if d > 8:
-            return ("?", "depth")
-        s = self.const_str(e)
-        if s is not None:
-            return ("const", s)
-        if isinstance(e, ast.Constant):
-            return ("const", e.value)
-        if isinstance(e, ast.Name):
-            if e.id in self.env:
-                return self.env[e.id]
-            if self.fnode is not None:
-                defs = single_defs(self.fnode, e.id)
-                vals = []
-                for df in defs:
-                    if df[0] == "assign":
-                        vals.append(self.ev(df[1], d + 1))
-                    elif df[0] == "param":
-                        vals.append(("param", e.id))
-                    else:
-                        vals.append(("?", f"binding {df[0]} of {e.id}"))
-                if vals:
-                    first = vals[0]
-                    return first if all(v == first for v in vals) else ("alt", tuple(vals))
-            return ("name", e.id)
-        if isinstance(e, ast.NamedExpr):
-            return self.ev(e.value, d + 1)
-        if isinstance(e, ast.Attribute):
-            if e.attr == "text":
-                return ("text", self.ev(e.value, d + 1))
-            return ("attr", self.ev(e.value, d + 1), e.attr)
-        if isinstance(e, ast.BoolOp) and isinstance(e.op, ast.Or) and len(e.values) == 2:
-            b = self.ev(e.values[1], d + 1)
-            if b == ("const", ""):
-                return ("or-empty", self.ev(e.values[0], d + 1))
-            return ("or", self.ev(e.values[0], d + 1), b)
-        if isinstance(e, ast.IfExp):
-            # `X if <test about X> else ""`
-            return ("ifexp", self.ev(e.body, d + 1), self.ev(e.orelse, d + 1), ast.unparse(e.test))
-        if isinstance(e, ast.Subscript) and isinstance(e.slice, ast.Constant):
-            return ("item", self.ev(e.value, d + 1), e.slice.value)
-        if isinstance(e, ast.Call):
-            f = e.func
-            if isinstance(f, ast.Attribute):
-                if f.attr == "find" and e.args:
-                    return ("find", self.ev(f.value, d + 1), self.ev(e.args[0], d + 1))
-                if f.attr in ("strip",) and not e.args:
-                    return ("strip", self.ev(f.value, d + 1))
-                if f.attr in ("lower", "rstrip", "lstrip", "upper", "replace", "title"):
-                    return (f.attr, self.ev(f.value, d + 1)) + tuple(ast.unparse(a) for a in e.args)
-                if f.attr == "get" and e.args:
-                    dflt = self.ev(e.args[1], d + 1) if len(e.args) > 1 else ("const", None)
-                    return ("get", self.ev(f.value, d + 1), self.ev(e.args[0], d + 1), dflt)
-                if f.attr == "group" and e.args:
-                    return ("group", self.ev(f.value, d + 1), ast.unparse(e.args[0]))
-                if isinstance(f.value, ast.Name) and f.value.id == "self":
-                    return self.helper(f.attr, e, d, method=True)
-                return ("call", ast.unparse(f), tuple(self.ev(a, d + 1) for a in e.args))
-            if isinstance(f, ast.Name):
-                if f.id in ("str",) and len(e.args) == 1:
-                    return ("str", self.ev(e.args[0], d + 1))
-                return self.helper(f.id, e, d, method=False)
-        return ("?", ast.unparse(e)[:60])
-
-    def helper(self, name, call, d, method):
-        """One level of helper inlining: module function / nested function / method of the same class with simple returns."""
-        target = None
-        if self.fnode is not None:
-            for n in ast.walk(self.fnode):
-                if isinstance(n, ast.FunctionDef) and n.name == name and n is not self.fnode:
-                    target = n
-                    break
-        if target is None:
-            for q, fn in self.mod.functions.items():
-                if q.split(".")[-1] == name and "<locals>" not in q:
-                    target = fn
-                    break
-        simple = target is not None and not any(isinstance(n, (ast.For, ast.While)) for n in ast.walk(target)) \
-            and not any(isinstance(n, ast.Call) and dotted(n.func).split(".")[-1] == target.name for n in ast.walk(target))
-        if target is None or self.depth > 2 or not simple:
-            return ("call", name, tuple(self.ev(a, d + 1) for a in call.args))
-        params = [a.arg for a in target.args.args]
-        if method and params and params[0] == "self":
-            params = params[1:]
-        env = dict(self.env) if target in list(ast.walk(self.fnode or ast.Module(body=[], type_ignores=[]))) else {}
-        # closures see the enclosing function's names through Prov of the enclosing function
-        outer = self if env else None
-        for p, a in zip(params, call.args):
-            env[p] = self.ev(a, d + 1)
-        for k in call.keywords:
-            if k.arg:
-                env[k.arg] = self.ev(k.value, d + 1)
-        sub = ProvClosure(self.mod, target, env, self.depth + 1, outer)
-        rets = [n.value for n in own_walk(target) if isinstance(n, ast.Return) and n.value is not None]
-        vals = []
-        for r in rets:
-            v = sub.ev(r, d + 1)
-            if v in (("const", None), ("const", "")):
-                continue
-            vals.append(v)
-        if not vals:
-            return ("call", name, ())
-        first = vals[0]
-        return first if all(v == first for v in vals) else ("alt", tuple(vals))
+class Unknown(Exception):
+    pass
 
 
-class ProvClosure(Prov):
-    """Provenance inside a nested function: free names resolve in the enclosing function."""
-
-    def __init__(self, mod, fnode, env, depth, outer):
-        super().__init__(mod, fnode, env, depth)
-        self.outer = outer
-
-    def ev(self, e, d=0):
-        if isinstance(e, ast.Name) and e.id not in self.env and self.outer is not None and not single_defs(self.fnode, e.id):
-            return self.outer.ev(e, d + 1)
-        return super().ev(e, d)
-
-
-def strip_wrappers(term, allowed):
-    """Remove allowed wrappers; returns (core, ok)."""
-    ok = True
-    while isinstance(term, tuple) and term and term[0] in ("strip", "or-empty", "ifexp", "alt", "str"):
-        if term[0] == "alt":
-            cores = [strip_wrappers(t, allowed) for t in term[1]]
-            if all(c[1] for c in cores) and all(c[0] == cores[0][0] for c in cores):
-                return cores[0][0], ok
-            return term, False
-        if term[0] == "ifexp":
-            if term[2] in (("const", ""), ("const", None)):
-                term = term[1]
-                continue
-            return term, False
-        if term[0] == "str":
-            term = term[1]
-            continue
-        if term[0] not in allowed:
-            ok = False
-        term = term[1]
-    return term, ok
+def alt(values):
+    flat = []
+    for v in values:
+        for x in (v[1] if isinstance(v, tuple) and v and v[0] == "alt" else (v,)):
+            if x not in flat:
+                flat.append(x)
+    return flat[0] if len(flat) == 1 else ("alt", tuple(flat))
 
 
 def mentions(term, pred):
@@ -228,226 +82,834 @@ def mentions(term, pred):
     return False
 
 
-# ------------------------------------------------------------- store sites --
-def stores(mod, fnode, ix):
-    """(field, value expr, env, store node) for every store into a metadata field inside fnode, literal-list loops unrolled."""
-    out = []
-
-    def visit(stmts, env):
-        for s in stmts:
-            if isinstance(s, ast.For):
-                lit = s.iter
-                if isinstance(lit, ast.Name):
-                    defs = single_defs(fnode, lit.id)
-                    if len(defs) == 1 and defs[0][0] == "assign":
-                        lit = defs[0][1]
-                if isinstance(lit, (ast.List, ast.Tuple)) and lit.elts and all(isinstance(x, ast.Tuple) for x in lit.elts) \
-                        and isinstance(s.target, ast.Tuple) and all(isinstance(t, ast.Name) for t in s.target.elts):
-                    P = Prov(mod, fnode, env)
-                    for tup in lit.elts:
-                        env2 = dict(env)
-                        for t, v in zip(s.target.elts, tup.elts):
-                            env2[t.id] = P.ev(v)
-                        visit(s.body, env2)
-                    continue
-                visit(s.body, env)
-                visit(s.orelse, env)
-                continue
-            for sub in ([s] if not isinstance(s, (ast.If, ast.Try, ast.With, ast.While)) else []):
-                for n in ast.walk(sub):
-                    if isinstance(n, ast.Assign):
-                        for t in n.targets:
-                            if isinstance(t, ast.Attribute):
-                                out.append((t.attr, n.value, env, n, ast.unparse(t.value)))
-                    elif isinstance(n, ast.Call) and isinstance(n.func, ast.Name) and n.func.id == "setattr" and len(n.args) == 3:
-                        name = Prov(mod, fnode, env).ev(n.args[1])
-                        if name[0] == "const":
-                            out.append((name[1], n.args[2], env, n, ast.unparse(n.args[0])))
-                    elif isinstance(n, ast.Call) and dotted(n.func).endswith("Metadata"):
-                        for k in n.keywords:
-                            if k.arg:
-                                out.append((k.arg, k.value, env, n, dotted(n.func)))
-            if isinstance(s, ast.If):
-                for n in ast.walk(s.test):
-                    pass
-                visit(s.body, env)
-                visit(s.orelse, env)
-            elif isinstance(s, ast.Try):
-                visit(s.body, env)
-                for h in s.handlers:
-                    visit(h.body, env)
-                visit(s.orelse, env)
-                visit(s.finalbody, env)
-            elif isinstance(s, (ast.With, ast.While)):
-                visit(s.body, env)
-    visit(fnode.body, {})
-    return out
+class Store:
+    def __init__(self, target, field, value, guards, node, fn, ctx_params):
+        self.target, self.field, self.value, self.guards, self.node, self.fn, self.ctx_params = target, field, value, guards, node, fn, ctx_params
 
 
-def guard_tests(ix, fnode, node):
-    out = []
-    cur = node
-    for a in ix.ancestors(node):
-        if isinstance(a, ast.If):
-            if any(cur is s or any(cur is x for x in ast.walk(s)) for s in a.body):
-                out.append((a.test, True))
+class Interp:
+    """One entry point.  `stores` collects Store records; `incomplete` notes constructs that were skipped."""
+
+    def __init__(self, mod, root_q, root_node):
+        self.mod, self.root_q, self.root = mod, root_q, root_node
+        self.stores = []
+        self.incomplete = []
+        self.cls = root_q.split(".")[0] if "." in root_q and "<locals>" not in root_q.split(".")[0] else None
+        self.stack = []
+        self._new = 0
+
+    # ------------------------------------------------------------ values --
+    def literal(self, e, env, d):
+        if isinstance(e, ast.Tuple):
+            return ("tuple", tuple(self.ev(x, env, d + 1) for x in e.elts))
+        if isinstance(e, ast.List):
+            return ("list", tuple(self.ev(x, env, d + 1) for x in e.elts))
+        if isinstance(e, ast.Dict):
+            if all(k is not None for k in e.keys):
+                return ("dict", tuple((self.ev(k, env, d + 1), self.ev(v, env, d + 1)) for k, v in zip(e.keys, e.values)))
+        return None
+
+    def module_value(self, name, d):
+        v = self.mod.assigns.get(name)
+        if v is None or d > 12:
+            return None
+        n_bind = sum(1 for n in ast.walk(self.mod.tree) if isinstance(n, ast.Name) and n.id == name and isinstance(n.ctx, ast.Store))
+        if n_bind != 1:
+            return None
+        return self.ev(v, {}, d + 1)
+
+    def ev(self, e, env, d=0):
+        if d > 40:
+            return ("?", "depth")
+        if isinstance(e, ast.Constant):
+            return ("const", e.value)
+        if isinstance(e, ast.Name):
+            if e.id in env:
+                return env[e.id]
+            mv = self.module_value(e.id, d)
+            if mv is not None:
+                return mv
+            return ("name", e.id)
+        if isinstance(e, ast.JoinedStr):
+            parts = []
+            for v in e.values:
+                if isinstance(v, ast.Constant):
+                    parts.append(str(v.value))
+                elif isinstance(v, ast.FormattedValue) and v.format_spec is None and v.conversion == -1:
+                    t = self.ev(v.value, env, d + 1)
+                    if t[0] != "const" or not isinstance(t[1], str):
+                        return ("fstr", tuple(self.ev(x.value, env, d + 1) for x in e.values if isinstance(x, ast.FormattedValue)))
+                    parts.append(t[1])
+                else:
+                    return ("?", "fstring")
+            return ("const", "".join(parts))
+        if isinstance(e, ast.BinOp) and isinstance(e.op, ast.Add):
+            a, b = self.ev(e.left, env, d + 1), self.ev(e.right, env, d + 1)
+            if a[0] == "const" and b[0] == "const" and isinstance(a[1], str) and isinstance(b[1], str):
+                return ("const", a[1] + b[1])
+            return ("add", a, b)
+        if isinstance(e, ast.BinOp) and isinstance(e.op, ast.BitOr):
+            return ("flags",)
+        lit = self.literal(e, env, d)
+        if lit is not None:
+            return lit
+        if isinstance(e, ast.NamedExpr):
+            v = self.ev(e.value, env, d + 1)
+            env[e.target.id] = v
+            return v
+        if isinstance(e, ast.Attribute):
+            base = self.ev(e.value, env, d + 1)
+            if e.attr == "text":
+                return ("text", base)
+            return ("attr", base, e.attr)
+        if isinstance(e, ast.Subscript):
+            base = self.ev(e.value, env, d + 1)
+            if isinstance(e.slice, ast.Slice):
+                return ("slice", base)
+            k = self.ev(e.slice, env, d + 1)
+            if base[0] in ("tuple", "list") and k[0] == "const" and isinstance(k[1], int) and -len(base[1]) <= k[1] < len(base[1]):
+                return base[1][k[1]]
+            if base[0] == "dict" and k[0] == "const":
+                for kk, vv in base[1]:
+                    if kk == k:
+                        return vv
+            return ("get", base, k, ("raise",))
+        if isinstance(e, ast.BoolOp):
+            vals = [self.ev(v, env, d + 1) for v in e.values]
+            if isinstance(e.op, ast.Or) and len(vals) == 2:
+                if vals[1] == ("const", ""):
+                    return ("or-empty", vals[0])
+                if vals[1] == ("const", None):
+                    return ("or-none", vals[0])
+                t = self.truth_of(vals[0])
+                if t is True:
+                    return vals[0]
+                if t is False:
+                    return vals[1]
+                return ("or", vals[0], vals[1])
+            return ("boolop", type(e.op).__name__, tuple(vals))
+        if isinstance(e, ast.IfExp):
+            t = self.static_truth(e.test, env)
+            if t is True:
+                return self.ev(e.body, env, d + 1)
+            if t is False:
+                return self.ev(e.orelse, env, d + 1)
+            a, b = self.ev(e.body, env, d + 1), self.ev(e.orelse, env, d + 1)
+            if b in (("const", ""), ("const", None)):
+                return ("or-empty" if b[1] == "" else "or-none", a)
+            return ("ifexp", a, b, ast.unparse(e.test))
+        if isinstance(e, ast.UnaryOp) and isinstance(e.op, ast.Not):
+            return ("not", self.ev(e.operand, env, d + 1))
+        if isinstance(e, ast.Compare):
+            return ("cmp", ast.unparse(e)[:80])
+        if isinstance(e, ast.Lambda):
+            return ("closure", e, dict(env))
+        if isinstance(e, (ast.ListComp, ast.GeneratorExp, ast.SetComp, ast.DictComp)) and len(e.generators) == 1 and not e.generators[0].ifs:
+            g = e.generators[0]
+            it = self.ev(g.iter, env, d + 1)
+            if it[0] == "mcall" and it[1] == "items" and it[2][0] == "dict":
+                it = ("tuple", tuple(("tuple", (k, v)) for k, v in it[2][1]))
+            if it[0] in ("tuple", "list") and len(it[1]) <= MAX_UNROLL:
+                items = []
+                for item in it[1]:
+                    env2 = dict(env)
+                    self.bind(g.target, item, env2)
+                    if isinstance(e, ast.DictComp):
+                        items.append((self.ev(e.key, env2, d + 1), self.ev(e.value, env2, d + 1)))
+                    else:
+                        items.append(self.ev(e.elt, env2, d + 1))
+                return ("dict", tuple(items)) if isinstance(e, ast.DictComp) else ("tuple", tuple(items))
+            return ("comp", ast.unparse(e)[:60])
+        if isinstance(e, (ast.ListComp, ast.GeneratorExp, ast.SetComp, ast.DictComp)):
+            return ("comp", ast.unparse(e)[:60])
+        if isinstance(e, ast.Call):
+            return self.call(e, env, d)
+        return ("?", ast.unparse(e)[:60])
+
+    # -------------------------------------------------------------- calls --
+    def call(self, e, env, d):
+        f = e.func
+        # a list handed to a call, or the receiver of a method call, may be mutated: it is no longer a constant sequence
+        for a in list(e.args) + ([f.value] if isinstance(f, ast.Attribute) else []):
+            if isinstance(a, ast.Name) and isinstance(env.get(a.id), tuple) and env[a.id][:1] == ("list",):
+                env[a.id] = ("mutable", env[a.id])
+        args = [self.ev(a, env, d + 1) for a in e.args if not isinstance(a, ast.Starred)]
+        kw = {k.arg: self.ev(k.value, env, d + 1) for k in e.keywords if k.arg}
+        for k in e.keywords:
+            if k.arg is None:                   # **mapping: a constant-key dict (display, dict(...), comprehension over a constant sequence)
+                m = self.ev(k.value, env, d + 1)
+                if m[0] == "dict" and all(kk[0] == "const" and isinstance(kk[1], str) for kk, _v in m[1]):
+                    kw.update({kk[1]: v for kk, v in m[1]})
+                else:
+                    self.incomplete.append(f"line {e.lineno}: **{ast.unparse(k.value)[:30]} not resolved")
+                    kw["**"] = m
+        name = dotted(f)
+        if isinstance(f, ast.Name):
+            if f.id == "setattr" and len(e.args) == 3:
+                self.store(args[0], args[1], args[2], e, env)
+                return ("const", None)
+            if f.id in ("str", "int", "float", "bool"):
+                return (f.id, args[0]) if len(args) == 1 else ("const", {"str": "", "int": 0, "float": 0.0, "bool": False}[f.id])
+            if f.id == "dict" and not e.args and all(k.arg for k in e.keywords):
+                return ("dict", tuple((("const", k), v) for k, v in kw.items()))
+            if f.id in ("len", "isinstance", "hasattr", "callable", "any", "all", "sorted", "list", "tuple", "dict", "set", "next", "iter",
+                        "getattr", "enumerate", "zip", "range", "min", "max", "print", "repr", "type"):
+                if f.id in ("list", "tuple") and len(args) == 1 and args[0][0] in ("tuple", "list"):
+                    return ("tuple", args[0][1])
+                if f.id == "getattr" and len(args) >= 2 and args[1][0] == "const" and isinstance(args[1][1], str):
+                    return ("text", args[0]) if args[1][1] == "text" else ("attr", args[0], args[1][1])
+                return ("builtin", f.id, tuple(args))
+            target = env.get(f.id)
+            if isinstance(target, tuple) and target[0] == "closure":
+                return self.inline(target[1], target[2], args, kw, e, method=False)
+            if isinstance(target, tuple) and target[0] in ("name", "const"):
+                # a callable taken from a table (converter column): int / str / None
+                if target == ("name", "int") or target == ("name", "str") or target == ("name", "float"):
+                    return (target[1], args[0]) if args else ("?", "conv")
+                if target[0] == "const":
+                    return ("?", "call of a constant")
+            if f.id in self.mod.functions and f.id not in env:
+                return self.inline(self.mod.functions[f.id], {}, args, kw, e, method=False)
+            if f.id in self.mod.classes or f.id[:1].isupper():
+                return self.construct(f.id, kw, e, env)
+        if name in ("re.compile",) and args:
+            return ("pattern", args[0])
+        if name.startswith("re.") and name.split(".")[1] in ("search", "match", "fullmatch", "sub", "findall") and len(args) >= 2:
+            return ("re." + name.split(".")[1], ("pattern", args[0]), tuple(args[1:]))
+        if isinstance(f, ast.Attribute):
+            if isinstance(f.value, ast.Name) and f.value.id == "self" and self.cls is not None and f"{self.cls}.{f.attr}" in self.mod.functions:
+                fn = self.mod.functions[f"{self.cls}.{f.attr}"]
+                decos = [ast.unparse(x) for x in fn.decorator_list]
+                return self.inline(fn, {"self": env.get("self", ("param", "self"))}, args, kw, e, method="staticmethod" not in decos)
+            recv = self.ev(f.value, env, d + 1)
+            a = f.attr
+            if a == "find" and args:
+                return ("find", recv, args[0])
+            if a == "findtext" and args:
+                return ("or-none", ("text", ("find", recv, args[0])))
+            if a in ("strip", "lstrip", "rstrip", "lower", "upper", "title", "casefold") and not args:
+                return (a, recv)
+            if a == "get" and args:
+                dflt = args[1] if len(args) > 1 else ("const", None)
+                if recv[0] == "dict" and args[0][0] == "const":
+                    for kk, vv in recv[1]:
+                        if kk == args[0]:
+                            return vv
+                    return dflt
+                return ("get", recv, args[0], dflt)
+            if a == "group":
+                return ("group", recv, tuple(args))
+            if a in ("search", "match", "fullmatch", "finditer", "findall"):
+                return ("re." + a, recv, tuple(args))
+            if a == "sub":
+                return ("re.sub", recv, tuple(args))
+            if a in ("replace", "rstrip", "lstrip", "split", "join", "format", "encode", "decode", "isoformat", "items", "keys", "values",
+                     "startswith", "endswith", "append", "extend", "add", "update", "debug", "info", "warning", "error", "exception"):
+                return ("mcall", a, recv, tuple(args))
+            return ("mcall", a, recv, tuple(args))
+        return ("?", ast.unparse(e)[:60])
+
+    def construct(self, cls, kw, node, env):
+        self._new += 1
+        obj = ("new", cls, self._new)
+        for k, v in kw.items():
+            self.store(obj, ("const", k) if k != "**" else ("?", "**kwargs"), v, node, env)
+        return obj
+
+    def inline(self, fn, closure_env, args, kw, node, method):
+        nm = getattr(fn, "name", "<lambda>")
+        loops = any(isinstance(n, (ast.For, ast.While, ast.ListComp, ast.GeneratorExp)) for n in ast.walk(fn))
+        recursive = any(isinstance(n, ast.Call) and dotted(n.func).split(".")[-1] == nm for n in ast.walk(fn))
+        if len(self.stack) >= MAX_DEPTH or fn in self.stack or loops or recursive:
+            # not executed in place: an opaque function of its arguments (its own stores are judged with it as entry point)
+            return ("call", nm, tuple(args))
+        params = [a.arg for a in fn.args.posonlyargs + fn.args.args]
+        env = dict(closure_env)
+        if method and params and params[0] in ("self", "cls"):
+            env.setdefault(params[0], ("param", params[0]))
+            params = params[1:]
+        defaults = list(fn.args.defaults)
+        dmap = dict(zip([a.arg for a in (fn.args.posonlyargs + fn.args.args)][-len(defaults):] if defaults else [], defaults))
+        for i, p in enumerate(params):
+            if i < len(args):
+                env[p] = args[i]
+            elif p in kw:
+                env[p] = kw[p]
+            elif p in dmap:
+                env[p] = self.ev(dmap[p], {}, 0)
             else:
-                out.append((a.test, False))
-        if a is fnode:
-            break
-        cur = a
-    return out
+                env[p] = ("param", p)
+        for a in fn.args.kwonlyargs:
+            env[a.arg] = kw.get(a.arg, ("param", a.arg))
+        if isinstance(fn, ast.Lambda):
+            self.stack.append(fn)
+            try:
+                return self.ev(fn.body, env, 0)
+            finally:
+                self.stack.pop()
+        self.stack.append(fn)
+        saved_guards = self.guards
+        try:
+            rets = []
+            self.block(fn.body, env, rets)
+            if not rets:
+                return ("const", None)
+            return alt(rets)
+        finally:
+            self.guards = saved_guards
+            self.stack.pop()
+
+    # ------------------------------------------------------------- stores --
+    def store(self, target, field, value, node, env):
+        fn = self.stack[-1] if self.stack else self.root
+        self.stores.append(Store(target, field, value, list(self.guards), node, fn, None))
+
+    # ---------------------------------------------------------- truthiness --
+    def truth_of(self, v):
+        if v[0] == "const":
+            return bool(v[1])
+        if v[0] in ("new", "pattern", "closure"):
+            return True
+        if v[0] in ("tuple", "list"):
+            return len(v[1]) > 0
+        if v[0] == "dict":
+            return len(v[1]) > 0
+        return None
+
+    def static_truth(self, test, env):
+        if isinstance(test, ast.UnaryOp) and isinstance(test.op, ast.Not):
+            t = self.static_truth(test.operand, env)
+            return None if t is None else not t
+        if isinstance(test, ast.BoolOp):
+            ts = [self.static_truth(v, env) for v in test.values]
+            if isinstance(test.op, ast.And):
+                if any(t is False for t in ts):
+                    return False
+                return True if all(t is True for t in ts) else None
+            if any(t is True for t in ts):
+                return True
+            return False if all(t is False for t in ts) else None
+        if isinstance(test, ast.Compare) and len(test.ops) == 1:
+            a, b = self.ev(test.left, dict(env)), self.ev(test.comparators[0], dict(env))
+            op = test.ops[0]
+            if isinstance(op, (ast.Is, ast.IsNot)) and b == ("const", None):
+                if a[0] == "const":
+                    r = a[1] is None
+                elif a[0] in ("new", "pattern", "tuple", "dict", "closure") or a in (("name", "int"), ("name", "str"), ("name", "float")):
+                    r = False
+                else:
+                    return None
+                return r if isinstance(op, ast.Is) else not r
+            if isinstance(op, (ast.Eq, ast.NotEq)) and a[0] == "const" and b[0] == "const":
+                return (a[1] == b[1]) if isinstance(op, ast.Eq) else (a[1] != b[1])
+            return None
+        if isinstance(test, (ast.Name, ast.Constant)):
+            return self.truth_of(self.ev(test, dict(env)))
+        return None
+
+    # ---------------------------------------------------------- statements --
+    guards: list = []
+
+    def run(self):
+        env = {}
+        a = self.root.args
+        for p in a.posonlyargs + a.args + a.kwonlyargs:
+            env[p.arg] = ("param", p.arg)
+        self.guards = []
+        self.stack = [self.root]
+        try:
+            self.block(self.root.body, env, [])
+        finally:
+            self.stack = []
+
+    def join(self, envs):
+        envs = [e for e in envs if e is not None]
+        if not envs:
+            return None
+        out = {}
+        for k in set().union(*[set(e) for e in envs]):
+            vals = [e[k] for e in envs if k in e]
+            if len(vals) < len(envs):
+                vals.append(("unbound",))
+            out[k] = alt(vals)
+        return out
+
+    def bind(self, tgt, v, env):
+        if isinstance(tgt, ast.Name):
+            env[tgt.id] = v
+        elif isinstance(tgt, (ast.Tuple, ast.List)):
+            for i, t in enumerate(tgt.elts):
+                if v[0] == "tuple" and len(v[1]) == len(tgt.elts):
+                    self.bind(t, v[1][i], env)
+                else:
+                    self.bind(t, ("item", v, i), env)
+        elif isinstance(tgt, ast.Attribute):
+            self.store(self.ev(tgt.value, env), ("const", tgt.attr), v, tgt, env)
+        elif isinstance(tgt, ast.Starred):
+            self.bind(tgt.value, ("?", "starred"), env)
+
+    def block(self, stmts, env, rets):
+        """Executes stmts in env (mutated).  Returns 'fall' | 'return' | 'continue' | 'break' | 'raise' for the path(s): when the
+        paths disagree the environment is the join of the falling ones and 'fall' is returned if any falls.  A guard whose other
+        branch left the block (`if c: continue`) stays in force for the rest of the block."""
+        g_entry = self.guards
+        try:
+            for s in stmts:
+                r = self.stmt(s, env, rets)
+                if r != "fall":
+                    return r
+            return "fall"
+        finally:
+            self.guards = g_entry
+
+    def stmt(self, s, env, rets):
+        if isinstance(s, ast.Assign):
+            v = self.ev(s.value, env)
+            for t in s.targets:
+                self.bind(t, v, env)
+            return "fall"
+        if isinstance(s, ast.AnnAssign):
+            if s.value is not None:
+                self.bind(s.target, self.ev(s.value, env), env)
+            return "fall"
+        if isinstance(s, ast.AugAssign):
+            if isinstance(s.target, ast.Name):
+                env[s.target.id] = ("aug", env.get(s.target.id, ("unbound",)), self.ev(s.value, env))
+            return "fall"
+        if isinstance(s, ast.Expr):
+            self.ev(s.value, env)
+            return "fall"
+        if isinstance(s, ast.Return):
+            rets.append(self.ev(s.value, env) if s.value is not None else ("const", None))
+            return "return"
+        if isinstance(s, ast.Raise):
+            return "raise"
+        if isinstance(s, ast.Continue):
+            return "continue"
+        if isinstance(s, ast.Break):
+            return "break"
+        if isinstance(s, (ast.Pass, ast.Import, ast.ImportFrom, ast.Global, ast.Nonlocal, ast.Assert, ast.Delete)):
+            return "fall"
+        if isinstance(s, (ast.FunctionDef, ast.AsyncFunctionDef)):
+            env[s.name] = ("closure", s, env)          # shares the enclosing environment (late binding, like Python)
+            return "fall"
+        if isinstance(s, ast.ClassDef):
+            return "fall"
+        if isinstance(s, ast.If):
+            t = self.static_truth(s.test, env)
+            if t is not None:
+                self.ev(s.test, env)                  # walrus side effects
+                return self.block(s.body if t else s.orelse, env, rets)
+            self.ev(s.test, env)                      # binds walrus targets
+            snap = dict(env)
+            e1, e2 = dict(env), dict(env)
+            g0 = self.guards
+            self.guards = g0 + [(s.test, True, snap)]
+            r1 = self.block(s.body, e1, rets)
+            self.guards = g0 + [(s.test, False, snap)]
+            r2 = self.block(s.orelse, e2, rets)
+            self.guards = g0
+            r = self.merge(env, [(r1, e1), (r2, e2)])
+            if r == "fall" and (r1 == "fall") != (r2 == "fall"):
+                self.guards = g0 + [(s.test, r1 == "fall", snap)]     # only one branch continues: its guard persists
+            return r
+        if isinstance(s, (ast.For, ast.AsyncFor)):
+            it = self.ev(s.iter, env)
+            if it[0] == "builtin" and it[1] in ("enumerate",) and it[2] and it[2][0][0] == "tuple":
+                start = it[2][1][1] if len(it[2]) > 1 and it[2][1][0] == "const" else 0
+                it = ("tuple", tuple(("tuple", (("const", start + i), x)) for i, x in enumerate(it[2][0][1])))
+            if it[0] == "mcall" and it[1] == "items" and it[2][0] == "dict":
+                it = ("tuple", tuple(("tuple", (k, v)) for k, v in it[2][1]))
+            if it[0] == "dict":
+                it = ("tuple", tuple(k for k, _v in it[1]))
+            if it[0] == "list":
+                it = ("tuple", it[1])
+            if it[0] == "tuple" and len(it[1]) <= MAX_UNROLL:
+                for item in it[1]:
+                    self.bind(s.target, item, env)
+                    r = self.block(s.body, env, rets)
+                    if r == "break":
+                        self.incomplete.append(f"line {s.lineno}: break inside an unrolled loop")
+                        break
+                    if r in ("return", "raise"):
+                        return r
+                if s.orelse:
+                    return self.block(s.orelse, env, rets)
+                return "fall"
+            snap = dict(env)
+            e1 = dict(env)
+            self.bind(s.target, ("elem", it), e1)
+            g0 = self.guards
+            self.guards = g0 + [("loop", s.lineno, snap)]
+            r1 = self.block(s.body, e1, rets)
+            self.guards = g0
+            r = self.merge(env, [("fall" if r1 in ("fall", "continue", "break") else r1, e1), ("fall", dict(snap))])
+            if s.orelse:
+                return self.block(s.orelse, env, rets)
+            return r
+        if isinstance(s, ast.While):
+            snap = dict(env)
+            e1 = dict(env)
+            g0 = self.guards
+            self.guards = g0 + [("loop", s.lineno, snap)]
+            r1 = self.block(s.body, e1, rets)
+            self.guards = g0
+            return self.merge(env, [("fall" if r1 in ("fall", "continue", "break") else r1, e1), ("fall", dict(snap))])
+        if isinstance(s, ast.Try):
+            snap = dict(env)
+            e1 = dict(env)
+            r1 = self.block(s.body, e1, rets)
+            outs = [(r1, e1)]
+            if r1 == "fall" and s.orelse:
+                outs = [(self.block(s.orelse, e1, rets), e1)]
+            for h in s.handlers:
+                eh = self.join([dict(snap), dict(e1)]) or dict(snap)
+                if h.name:
+                    eh[h.name] = ("exc",)
+                g0 = self.guards
+                self.guards = g0 + [("except", h.lineno, snap)]
+                rh = self.block(h.body, eh, rets)
+                self.guards = g0
+                outs.append((rh, eh))
+            r = self.merge(env, outs)
+            if s.finalbody:
+                rf = self.block(s.finalbody, env, rets)
+                if rf != "fall":
+                    return rf
+            return r
+        if isinstance(s, (ast.With, ast.AsyncWith)):
+            for it in s.items:
+                v = self.ev(it.context_expr, env)
+                if it.optional_vars is not None:
+                    self.bind(it.optional_vars, v, env)
+            return self.block(s.body, env, rets)
+        if isinstance(s, ast.Match):
+            self.incomplete.append(f"line {s.lineno}: match statement")
+            return "fall"
+        self.incomplete.append(f"line {getattr(s, 'lineno', '?')}: {type(s).__name__}")
+        return "fall"
+
+    def merge(self, env, outs):
+        """Joins branch results into env; returns the combined status."""
+        falls = [e for r, e in outs if r == "fall"]
+        if falls:
+            j = self.join(falls)
+            env.clear()
+            env.update(j)
+            return "fall"
+        kinds = {r for r, _e in outs}
+        if len(kinds) == 1:
+            return kinds.pop()
+        if kinds <= {"continue", "break"}:
+            return "continue"
+        if "continue" in kinds or "break" in kinds:
+            return "continue"         # the iteration ends on every path
+        return "return"
 
 
-def _with_walrus(mod, fnode, ix, node, env):
-    """Names bound by a walrus in an enclosing if-test are resolved to that binding (the reaching definition)."""
-    env = dict(env)
-    for test, pos in guard_tests(ix, fnode, node):
-        for n in ast.walk(test):
-            if isinstance(n, ast.NamedExpr) and n.target.id not in env and pos:
-                env[n.target.id] = Prov(mod, fnode, env).ev(n.value)
-    return env
+# ------------------------------------------------------------------ judging --
+def strip_wrappers(term, allowed):
+    """(core, transformed?) after removing neutral wrappers and the ones the format allows."""
+    changed = False
+    while isinstance(term, tuple) and term and term[0] in NEUTRAL + ("strip", "lower", "upper", "title", "lstrip", "rstrip", "casefold", "int", "float"):
+        if term[0] not in NEUTRAL and term[0] not in allowed:
+            changed = True
+        term = term[1]
+    return term, changed
 
 
-def _is_node_of(core, kind, tag):
-    """core provenance == 'the text/value of node <tag>' for the reader kind."""
+def alternatives(term):
+    return list(term[1]) if isinstance(term, tuple) and term and term[0] == "alt" else [term]
+
+
+def is_target(store, metacls, new_classes):
+    t = store.target
+    if t[0] == "new":
+        return t[1] == metacls
+    if t[0] == "attr":
+        return "metadata" in t[2].lower()
+    if t[0] in ("param", "name"):
+        return "meta" in t[1].lower()
+    if t[0] == "alt":
+        return any(x[0] == "new" and x[1] == metacls for x in t[1])
+    return False
+
+
+def local_of(tag):
+    return tag.split("}")[-1].split(":")[-1]
+
+
+def node_text_of(core, kind, tag):
+    """Does the provenance `core` denote the text / value of the property's node?  -> True | False | None (not understood)."""
     if kind == "etree":
         if core[0] != "text":
-            return False
-        x = core[1]
-        # find(tag) possibly with a fallback find("{ns}tag") (alt of two finds of the same local name)
-        finds = [x] if x[0] == "find" else (list(x[1]) if x[0] == "alt" else [])
-        if not finds:
-            return False
-        local = tag.split("}")[-1].split(":")[-1]
+            return None if mentions(core, lambda t: t[:1] in (("?",), ("param",), ("call",), ("item",), ("elem",))) else False
+        finds = alternatives(core[1])
+        ok = True
         for f in finds:
-            if f[0] != "find" or f[2][0] != "const":
-                return False
+            if f[0] != "find" or f[2][0] != "const" or not isinstance(f[2][1], str):
+                return None if f[0] in ("param", "?", "name", "item", "elem", "call") or (f[0] == "find" and f[2][0] != "const") else False
             t = f[2][1]
-            if t != tag and not (t.split("}")[-1].split(":")[-1] == local and (t.startswith("{http://purl.org/dc/elements/1.1/}") or t.startswith("dc:"))):
-                return False
-        return True
+            same = t == tag or (local_of(t) == local_of(tag) and (t.startswith(DC) or t.startswith("dc:") or t.startswith("{*}"))
+                                and (tag.startswith(DC) or tag.startswith("dc:")))
+            ok = ok and same
+        return ok
     if kind == "props":
-        return core[0] == "attr" and core[2] == tag and core[1] == ("attr", ("param", "wb"), "properties")
-    return False
+        if core[0] == "attr" and core[2] == tag and core[1][0] == "attr" and core[1][2] == "properties":
+            return True
+        return None if mentions(core, lambda t: t[:1] in (("?",), ("call",), ("item",))) else False
+    return None
+
+
+def judge_etree(store, kind, tag, allowed, other_tags, interp):
+    """-> ('ok'|'bad'|'unresolved', why)"""
+    verdicts = []
+    for v in alternatives(store.value):
+        if v in (("const", None), ("const", ""), ("unbound",)):
+            continue
+        core, changed = strip_wrappers(v, allowed)
+        r = node_text_of(core, kind, tag)
+        if r is None:
+            verdicts.append(("unresolved", f"value {short_term(v)} not understood"))
+        elif r is False:
+            verdicts.append(("bad", f"value is {short_term(v)}, not the text of <{tag}>"))
+        elif changed:
+            verdicts.append(("bad", f"the text of <{tag}> is transformed: {short_term(v)}"))
+        else:
+            verdicts.append(("ok", ""))
+    if not verdicts:
+        return "unresolved", "only empty values stored"
+    for g in store.guards:
+        if g[0] in ("loop", "except"):
+            continue
+        test, _pos, snap = g
+        none_tested = {id(c.left) for c in ast.walk(test) if isinstance(c, ast.Compare) and len(c.ops) == 1 and isinstance(c.ops[0], (ast.Is, ast.IsNot))
+                       and isinstance(c.comparators[0], ast.Constant) and c.comparators[0].value is None}
+        for nm in [n for n in ast.walk(test) if isinstance(n, ast.Name)]:
+            t = interp.ev(nm, dict(snap))
+            if id(nm) in none_tested and t[:1] == ("param",):
+                continue                              # presence test of a container handed in by the caller
+            if mentions(t, lambda x: x[:1] == ("const",) and isinstance(x[1], str) and x[1] in other_tags):
+                verdicts.append(("bad", f"stored under a test about another property ({ast.unparse(test)[:50]})"))
+            elif (t[:1] == ("param",) and nm.id not in ("self", "cls")) or mentions(t, lambda x: x[:1] == ("?",)):
+                verdicts.append(("unresolved", f"guard {ast.unparse(test)[:50]} not understood"))
+    for k in ("bad", "unresolved"):
+        for v in verdicts:
+            if v[0] == k:
+                return v
+    return "ok", ""
+
+
+def short_term(t, n=0):
+    if not isinstance(t, tuple):
+        return repr(t)[:30]
+    if n > 3:
+        return "..."
+    if t[0] == "closure":
+        return "<function>"
+    return "(" + " ".join(short_term(x, n + 1) if isinstance(x, tuple) else repr(x)[:40] for x in t[:4]) + ")"
+
+
+def key_guards(store, interp):
+    """[(key term, constant, polarity)] for guards of the form <expr> == <const> (either side, `in (consts)`), plus the
+    entry guards of table-driven stores."""
+    out = []
+    for g in store.guards:
+        if g[0] == "key-eq":
+            out.append((g[1], g[2], True))
+            continue
+        if g[0] in ("loop", "except"):
+            continue
+        test, pos, snap = g
+        for c in ast.walk(test):
+            if isinstance(c, ast.Compare) and len(c.ops) == 1 and isinstance(c.ops[0], (ast.Eq, ast.NotEq)):
+                a, b = interp.ev(c.left, dict(snap)), interp.ev(c.comparators[0], dict(snap))
+                for x, y in ((a, b), (b, a)):
+                    if y[0] == "const" and isinstance(y[1], str):
+                        eq = isinstance(c.ops[0], ast.Eq)
+                        # polarity of the comparison inside `test` is only certain when it is the whole test or a conjunct
+                        conj = c is test or (isinstance(test, ast.BoolOp) and isinstance(test.op, ast.And) and c in test.values)
+                        if conj or not pos:
+                            out.append((x, y[1], (eq == pos) if conj else None))
+    return out
+
+
+def expand_table_stores(stores):
+    """A store whose field name is a lookup in a constant dict becomes one store per entry, guarded by key == entry key."""
+    out = []
+    for s in stores:
+        names = alternatives(s.field)
+        done = False
+        for f in names:
+            if f[0] == "get" and f[1][0] == "dict":
+                for k, v in f[1][1]:
+                    if k[0] == "const":
+                        out.append(Store(s.target, v, s.value, s.guards + [("key-eq", f[2], k[1])], s.node, s.fn, None))
+                done = True
+            elif f[0] == "const" and f[1] is None:
+                done = True
+            else:
+                out.append(Store(s.target, f, s.value, s.guards, s.node, s.fn, None))
+                done = True
+        if not done:
+            out.append(s)
+    return out
+
+
+def judge_html_meta(store, want, interp):
+    vals = [v for v in alternatives(store.value) if v not in (("const", None), ("const", ""), ("unbound",))]
+    if not vals:
+        return "unresolved", "only empty values stored"
+    for v in vals:
+        core, changed = strip_wrappers(v, ())
+        is_content = core[0] == "get" and core[2] == ("const", "content")
+        if not is_content:
+            if mentions(core, lambda t: t[:1] in (("?",), ("param",), ("call",))):
+                return "unresolved", f"value {short_term(v)} not understood"
+            return "bad", f"value {short_term(v)} is not the content attribute"
+        if changed:
+            return "bad", f"the content attribute is transformed: {short_term(v)}"
+    kgs = [kg for kg in key_guards(store, interp) if mentions(kg[0], lambda t: t == ("const", "name"))]
+    if any(k == want and pol is True for _t, k, pol in kgs):
+        if any(k != want and pol is True for _t, k, pol in kgs):
+            return "bad", "stored under tests selecting two different meta names"
+        return "ok", ""
+    sel = [k for _t, k, pol in kgs if pol is True]
+    if sel:
+        return "bad", f"stored for <meta name={sel[0]!r}>, not {want!r}"
+    return "unresolved", "no test selecting the meta name found on the path to the store"
+
+
+def judge_html_title(store, interp):
+    vals = [v for v in alternatives(store.value) if v not in (("const", None), ("const", ""), ("unbound",))]
+    for v in vals:
+        core, _changed = strip_wrappers(v, ("strip",))
+        if mentions(core, lambda t: t == ("const", "title")) and not mentions(core, lambda t: t[:1] == ("const",) and t[1] in ("description", "keywords", "author", "h1")):
+            continue
+        if mentions(core, lambda t: t[:1] in (("?",), ("param",))):
+            return "unresolved", f"value {short_term(v)} not understood"
+        return "bad", f"value {short_term(v)} is not the text of the <title> node"
+    return ("ok", "") if vals else ("unresolved", "only empty values stored")
+
+
+def judge_rtf(store, kw, other_kws):
+    import re as _re
+    pats = []
+    mentions(store.value, lambda t: pats.append(t[1]) or False if t[:1] == ("const",) and isinstance(t[1], str) and "\\\\" in t[1] else False)
+    words = set()
+    for p in pats:
+        words |= set(_re.findall(r"\\\\([a-z]+)", p))
+    words -= {"s", "d", "w"}
+    if kw in words and not (words & other_kws):
+        return "ok", ""
+    if words & other_kws and kw not in words:
+        return "bad", f"read from the \\{sorted(words & other_kws)[0]} group instead of \\{kw}"
+    return "unresolved", f"no pattern for the \\{kw} group found in the value ({short_term(store.value)})"
+
+
+def analyse_module(mod):
+    """All stores of the module, each entry point analysed separately: {id(store node): [Store, ...]}."""
+    by_node = {}
+    incomplete = []
+    callers = set()
+    for q, fn in mod.functions.items():
+        for n in ast.walk(fn):
+            if isinstance(n, ast.Call):
+                nm = dotted(n.func).split(".")[-1]
+                if nm and nm != fn.name:
+                    callers.add(nm)
+    interps = []
+    for q, fn in mod.functions.items():
+        if "<locals>" in q or isinstance(fn, ast.Lambda):
+            continue
+        it = Interp(mod, q, fn)
+        try:
+            it.run()
+        except RecursionError:
+            incomplete.append(f"{q}: recursion limit")
+            continue
+        it.called_elsewhere = fn.name in callers
+        interps.append(it)
+        for s in expand_table_stores(it.stores):
+            s.interp = it
+            by_node.setdefault(id(s.node), []).append(s)
+        incomplete.extend(f"{q}: {x}" for x in it.incomplete)
+    return by_node, incomplete
 
 
 def metadata_readers(repo, tier):
     obls, fns = [], []
-    for reader, (rel, q, kind, props) in READERS.items():
+    for reader, (rel, metacls, kind, props) in READERS.items():
         try:
             mod = loader.module(rel, repo)
-        except FileNotFoundError:
-            mod = None
-        fnode = mod.functions.get(q) if mod is not None else None
+            by_node, incomplete = analyse_module(mod)
+            err = None
+        except Exception as e:  # noqa -- a shape the interpreter does not handle must never be an engine error
+            by_node, incomplete, err = {}, [], f"{type(e).__name__}: {e}"
         for prop, (field, tag, allowed) in props.items():
-            oid = f"C04/{short(rel)}::{q}/metadata-copied#{reader}-{prop}"
-            if fnode is None:
-                obls.append(ground_obligation(oid, False, "reader function missing", rel, definite=False))
-                continue
-            ix = Index(mod)
-            if kind in ("etree", "props"):
-                obls.append(_check_copied(oid, rel, mod, fnode, ix, kind, prop, field, tag, allowed, props))
-            elif kind == "html":
-                obls.append(_check_html(oid, rel, mod, fnode, ix, prop, field, tag, allowed))
-            elif kind == "rtf":
-                obls.append(_check_rtf(oid, rel, mod, fnode, ix, prop, field, tag))
-        if fnode is not None:
-            fns.append(dict(mod.fn_info(q), obligations=len(props)))
+            oid = f"C04/{short(rel)}::metadata/metadata-copied#{reader}-{prop}"
+            hint = {"kind": "metadata", "reader": reader, "property": prop, "field": field}
+            if err is not None:
+                o = ground_obligation(oid, False, f"{rel}: interpreter gave up: {err}", rel, definite=False)
+            else:
+                try:
+                    ok, why = _judge_property(by_node, kind, metacls, prop, field, tag, allowed, props)
+                except Exception as e:  # noqa
+                    ok, why = False, f"judgement gave up: {type(e).__name__}: {e}"
+                o = ground_obligation(oid, ok, f"{rel}: {why}", rel, definite=False)
+            o["replay_hint"] = hint
+            obls.append(o)
+        if err is None:
+            fns.append({"function": f"{rel}::<metadata stores of {metacls}>", "lines": [1, 1], "file_sha256": mod.sha256, "segment_sha256": mod.sha256,
+                        "obligations": len(props)})
     return {"obligations": obls, "functions": fns}
 
 
-def _check_copied(oid, rel, mod, fnode, ix, kind, prop, field, tag, allowed, props):
-    sts = [s for s in stores(mod, fnode, ix) if s[0] == field]
-    hint = {"kind": "metadata", "reader": oid.split("#")[1].split("-")[0], "property": prop, "field": field}
-
-    def res(ok, why, definite=True):
-        o = ground_obligation(oid, ok, f"{rel}: {why}", rel, definite=definite)
-        o["replay_hint"] = hint
-        return o
-    if not sts:
-        return res(False, f"no store into metadata.{field}: the {prop} of the document is never reported")
+def _judge_property(by_node, kind, metacls, prop, field, tag, allowed, props):
     other_tags = {t for p, (_f, t, _a) in props.items() if p != prop}
-    for (_f, value, env, node, _base) in sts:
-        env = _with_walrus(mod, fnode, ix, node, env)
-        P = Prov(mod, fnode, env)
-        term = P.ev(value)
-        core, ok = strip_wrappers(term, allowed)
-        if not _is_node_of(core, kind, tag):
-            wrong = mentions(term, lambda t: isinstance(t, tuple) and t[:1] == ("const",) and t[1] in other_tags) \
-                and not mentions(term, lambda t: isinstance(t, tuple) and t[:1] in (("alt",), ("?",)))
-            return res(False, f"line {node.lineno}: metadata.{field} is assigned {ast.unparse(value)[:60]} whose provenance is not the text of <{tag}>"
-                       + (" (it is the node of another property)" if wrong else ""), definite=bool(wrong))
-        if not ok:
-            return res(False, f"line {node.lineno}: metadata.{field} = {ast.unparse(value)[:60]}: the text of <{tag}> is transformed "
-                              f"(only {list(allowed) or 'an exact copy'} is allowed for this format)")
-        # guards: only about this node / its text (or the container nodes)
-        for test, _pos in guard_tests(ix, fnode, node):
-            for nm in [n for n in ast.walk(test) if isinstance(n, ast.Name)]:
-                t = P.ev(nm)
-                if mentions(t, lambda x: isinstance(x, tuple) and x[:1] == ("const",) and x[1] in other_tags):
-                    return res(False, f"line {node.lineno}: the store into metadata.{field} is guarded by a test about another property ({ast.unparse(test)[:50]})")
-                if mentions(t, lambda x: isinstance(x, tuple) and x[:1] == ("?",)):
-                    return res(False, f"line {node.lineno}: guard {ast.unparse(test)[:50]} not understood", definite=False)
-    return res(True, f"metadata.{field} <- text of <{tag}>" + (f" modulo {list(allowed)}" if allowed else " (exact copy)") + f"; {len(sts)} store(s)")
-
-
-def _check_html(oid, rel, mod, fnode, ix, prop, field, tag, allowed):
-    sts = [s for s in stores(mod, fnode, ix) if s[0] == field]
-    hint = {"kind": "metadata", "reader": "html", "property": prop, "field": field}
-
-    def res(ok, why, definite=True):
-        o = ground_obligation(oid, ok, f"{rel}: {why}", rel, definite=definite)
-        o["replay_hint"] = hint
-        return o
-    if not sts:
-        return res(False, f"no store into metadata.{field}")
-    for (_f, value, env, node, _b) in sts:
-        P = Prov(mod, fnode, env)
-        term = P.ev(value)
-        core, ok = strip_wrappers(term, allowed)
-        if tag.startswith("node:"):
-            want = tag.split(":")[1]
-            good = mentions(core, lambda t: isinstance(t, tuple) and t[:1] == ("call",) and "_find_node" in str(t[1]) and ("const", want) in t[2]) \
-                or mentions(core, lambda t: t == ("const", want))
-            if not (good and ok):
-                return res(False, f"line {node.lineno}: metadata.{field} = {ast.unparse(value)[:60]}: not the text of the <{want}> node", definite=False)
+    ok_nodes, problems = 0, []
+    for _nid, contexts in by_node.items():
+        relevant = []
+        for s in contexts:
+            if not is_target(s, metacls, None):
+                continue
+            names = alternatives(s.field)
+            if any(f == ("const", field) for f in names):
+                relevant.append((s, len(names) == 1))
+            elif any(f[0] != "const" for f in names):
+                relevant.append((s, None))          # field name not resolved in this context
+        if not relevant:
+            continue
+        verdicts = []
+        for s, exact in relevant:
+            if exact is None:
+                verdicts.append(("unresolved", "field name not resolved", s))
+                continue
+            if kind in ("etree", "props"):
+                v = judge_etree(s, kind, tag, allowed, other_tags, s.interp)
+            elif kind == "html":
+                v = judge_html_title(s, s.interp) if tag.startswith("node:") else judge_html_meta(s, tag.split(":")[1], s.interp)
+            else:
+                v = judge_rtf(s, tag.lstrip("\\"), {t.lstrip("\\") for t in other_tags})
+            verdicts.append((v[0], v[1], s))
+        resolved = [v for v in verdicts if v[0] != "unresolved"]
+        if not resolved:
+            # a store that may write this field but could not be judged in any context
+            if any(x[1] for x in relevant if x[1] is not None) or all(x[1] is None for x in relevant):
+                line = getattr(relevant[0][0].node, "lineno", "?")
+                if any(x[1] is not None for x in relevant):
+                    problems.append(f"line {line}: {verdicts[0][1]}")
+                # field name unresolved everywhere: it might write any field -> cannot be ignored
+                elif all(not s.interp.called_elsewhere or True for s, _e in relevant):
+                    problems.append(f"line {line}: store with an unresolved field name")
+            continue
+        bad = [v for v in resolved if v[0] == "bad"]
+        if bad:
+            problems.append(f"line {getattr(bad[0][2].node, 'lineno', '?')}: metadata.{field}: {bad[0][1]}")
         else:
-            want = tag.split(":")[1]
-            # content attribute of a <meta> whose name attribute equals `want`: value = attrs.get("content", ""), guard name == want
-            is_content = mentions(term, lambda t: isinstance(t, tuple) and t[:1] == ("get",) and t[2] == ("const", "content"))
-            guards = guard_tests(ix, fnode, node)
-            named = any(pos and any(isinstance(c, ast.Constant) and c.value == want for c in ast.walk(test)) for test, pos in guards)
-            wrong = [c.value for test, pos in guards if pos for c in ast.walk(test) if isinstance(c, ast.Constant) and isinstance(c.value, str)
-                     and c.value in ("description", "keywords", "author") and c.value != want]
-            if not is_content or not ok:
-                return res(False, f"line {node.lineno}: metadata.{field} = {ast.unparse(value)[:60]}: not the content attribute of the meta element", definite=False)
-            if not named:
-                return res(False, f"line {node.lineno}: metadata.{field} is stored under a test that does not select <meta name={want!r}>"
-                           + (f" (it selects {wrong})" if wrong else ""), definite=bool(wrong))
-    return res(True, f"metadata.{field} <- {tag}" + (f" modulo {list(allowed)}" if allowed else ""))
-
-
-def _check_rtf(oid, rel, mod, fnode, ix, prop, field, tag):
-    """RTF: metadata.<field> = get_value(<pattern for the \\<keyword> group>): the keyword must be the property's (the decoding of the
-    group text -- \\'hh escapes, control words -- is part of the format)."""
-    sts = [s for s in stores(mod, fnode, ix) if s[0] == field]
-    hint = {"kind": "metadata", "reader": "rtf", "property": prop, "field": field}
-
-    def res(ok, why, definite=True):
-        o = ground_obligation(oid, ok, f"{rel}: {why}", rel, definite=definite)
-        o["replay_hint"] = hint
-        return o
-    if not sts:
-        return res(False, f"no store into metadata.{field}")
-    for (_f, value, env, node, _b) in sts:
-        if not (isinstance(value, ast.Call) and isinstance(value.func, ast.Name) and value.args and isinstance(value.args[0], ast.Constant)
-                and isinstance(value.args[0].value, str)):
-            return res(False, f"line {node.lineno}: metadata.{field} = {ast.unparse(value)[:60]}: shape not recognised", definite=False)
-        pat = value.args[0].value
-        kw = tag.lstrip("\\")
-        import re as _re
-        words = _re.findall(r"\\\\([a-z]+)", pat)
-        if kw not in words:
-            return res(False, f"line {node.lineno}: metadata.{field} is read from the group {words} instead of \\{kw}", definite=True)
-    return res(True, f"metadata.{field} <- text of the {tag} group of \\info")
+            ok_nodes += 1
+    if problems:
+        return False, "; ".join(problems[:3])
+    if ok_nodes == 0:
+        return False, f"no store into the {field} field of {metacls} found: the {prop} of the document is never reported"
+    return True, f"{metacls}.{field} <- {tag}" + (f" modulo {list(allowed)}" if allowed else " (exact copy)") + f"; {ok_nodes} store site(s)"
